@@ -261,6 +261,11 @@ func buildAndVerify(vc vcase) VObs {
 			Name: "bp", SignatureVerification: sv, TrustStores: stores, TrustedIdentities: ids}}}
 		if in.Sel == "nopolicy" {
 			blobName = "unlisted"
+			// the document has a GLOBAL statement listing the same stores and identities: a name that matches no statement must
+			// not fall back to it
+			if !in.Skip {
+				blobDoc.TrustPolicies = append(blobDoc.TrustPolicies, trustpolicy.BlobTrustPolicy{Name: "gp", SignatureVerification: sv, TrustStores: stores, TrustedIdentities: ids, GlobalPolicy: true})
+			}
 		}
 		if in.Sel == "nildoc" {
 			ociDoc = &trustpolicy.OCIDocument{Version: "1.0", TrustPolicies: []trustpolicy.OCITrustPolicy{{
